@@ -32,6 +32,8 @@ package raft
 //@ threadlocal InstallSnapshotRequest InstallSnapshotResponse
 //@ threadlocal Raft.id Raft.address Raft.logger Raft.transport Raft.log Raft.stateStorage Raft.snapshotStorage Raft.fsm
 //@ threadlocal Raft.options.electionTimeout Raft.options.heartbeatInterval Raft.options.leaseDuration
+//@ threadlocal Operation.readIndex Operation.OperationType Operation.Bytes Operation.LogIndex Operation.LogTerm
+//@ threadlocal LogEntry.Index LogEntry.Term LogEntry.Data LogEntry.EntryType
 //@ threadlocal Raft.applyCond Raft.commitCond Raft.readOnlyCond Raft.electionCond Raft.snapshotCond
 
 // ===========================================================================================
@@ -130,6 +132,8 @@ package raft
 //@ guar [G1] r.currentTerm >= old(r.currentTerm)
 //@ guar [G2] r.currentTerm == old(r.currentTerm) && old(r.votedFor) != "" ==> r.votedFor == old(r.votedFor)
 //@ guar [G3] r.commitIndex >= old(r.commitIndex)
+//@ guar [G4] r.lastApplied >= old(r.lastApplied)
+//@ guar [Gqv] forall o *Operation :: old(o.quorumVerified) ==> o.quorumVerified
 //@ guar [Gclk] now >= old(now)
 // GL (leader append-only): used as rely under assumption A-LEAD-ONCE (a node does not enter the
 // leader state twice in one term), without which it is not transitive.
@@ -468,3 +472,46 @@ package raft
 //@ func Raft.sendInstallSnapshot
 //@   flags inline lockheld
 //@   at before-assign follower.nextIndex assume [A-SNAP-LABEL] newval <= Llast + 1
+
+// ===========================================================================================
+// Application of committed entries, read-only operations, lease (C01, C03, C05, C17)
+// ===========================================================================================
+
+//@ spec committedThisTermSpec(r) = (inLog(r.commitIndex) && Lterm[r.commitIndex] == r.currentTerm) || (!inLog(r.commitIndex) && r.lastIncludedTerm == r.currentTerm)
+
+//@ func Raft.committedThisTerm
+//@   flags lockheld
+//@   requires r.log != nil && r.logger != nil
+//@   ensures [spec] result == committedThisTermSpec(r)
+
+//@ func lease.renew
+//@   ensures [spec] l.expiration == now + l.duration && now >= old(now)
+//@ func lease.isValid
+//@   ensures [spec] result == (now < l.expiration) && now >= old(now)
+//@ func newLease
+//@   ensures [spec] result != nil && result.duration == duration && result.expiration == now && now >= old(now)
+
+//@ func operationManager.appliableReadOnlyOperations
+//@   requires r.pendingReadOnly != nil
+//@   requires forall o *Operation :: o in r.pendingReadOnly ==> o != nil
+//@   ensures [spec] result != nil && forall o *Operation :: o in result ==> o != nil && o.readIndex <= applyIndex && (o.OperationType == LinearizableReadOnly ==> o.quorumVerified) && (o.OperationType == LinearizableReadOnly || o.OperationType == LeaseBasedReadOnly)
+//@   ensures [removed] forall o *Operation :: o in result ==> !(o in r.pendingReadOnly)
+//@   loop range r.pendingReadOnly invariant [spec] forall o *Operation :: o in appliableOperations ==> o != nil && o.readIndex <= applyIndex && (o.OperationType == LinearizableReadOnly ==> o.quorumVerified) && (o.OperationType == LinearizableReadOnly || o.OperationType == LeaseBasedReadOnly) && !(o in r.pendingReadOnly)
+//@   loop range r.pendingReadOnly invariant [nonnil] forall o *Operation :: o in r.pendingReadOnly ==> o != nil
+
+//@ func Raft.readOnlyLoop
+//@   release s2 [serve] r.state == Leader && operation != nil && operation.readIndex <= r.lastApplied && (operation.OperationType == LinearizableReadOnly ==> operation.quorumVerified) && (operation.OperationType == LeaseBasedReadOnly ==> now < r.operationManager.leaderLease.expiration)
+//@   loop range appliableOperations invariant [batch] forall o *Operation :: o in appliableOperations ==> o != nil && o.readIndex <= r.lastApplied && (o.OperationType == LinearizableReadOnly ==> o.quorumVerified) && (o.OperationType == LinearizableReadOnly || o.OperationType == LeaseBasedReadOnly)
+//@   loop range appliableOperations invariant [leader] r.state == Leader
+
+//@ func Raft.applyLoop
+//@   release s2 [order] operation.LogIndex == r.lastApplied + 1 && operation.LogIndex <= r.commitIndex && operation.LogTerm == Lterm[operation.LogIndex] && operation.Bytes == Ldata[operation.LogIndex] && Ltyp[operation.LogIndex] == OperationEntry && operation.OperationType == Replicated
+//@   at before-assign r.lastApplied assert [advance] newval == r.lastApplied + 1 && newval <= r.commitIndex
+//@   at call respond assert [answer] response.Operation.LogIndex == operation.LogIndex && response.Operation.LogTerm == operation.LogTerm && response.Operation.Bytes == operation.Bytes && err == nil
+
+//@ func Raft.applyConfiguration
+//@   flags inline lockheld
+//@ func Raft.decodeConfiguration
+//@   flags inline lockheld
+//@ func Raft.encodeConfiguration
+//@   flags inline lockheld
